@@ -12,9 +12,9 @@ static std::string g_echsx, g_shim;
 static bool g_trace = false;
 static const double T0 = 1577872800.0;
 
-struct Case { std::string form = "dura"; long limit = 1; std::string iso; int longjob = 1; };
-static std::string ctext(const Case &c) { return "form=" + c.form + " limit=" + std::to_string(c.limit) + " iso=" + (c.iso.empty() ? "-" : c.iso) + " longjob=" + std::to_string(c.longjob); }
-static bool cparse(const std::string &t, Case &c) { char f[16], iso[64]; if (sscanf(t.c_str(), "form=%15s limit=%ld iso=%63s longjob=%d", f, &c.limit, iso, &c.longjob) != 4) return false; c.form = f; c.iso = std::string(iso) == "-" ? "" : iso; return true; }
+struct Case { std::string form = "dura"; long limit = 1; std::string iso; int longjob = 1; int nocc = 3; };   // nocc: occurrences of the event (1 = no RRULE); every one that comes due is looked at
+static std::string ctext(const Case &c) { return "form=" + c.form + " limit=" + std::to_string(c.limit) + " iso=" + (c.iso.empty() ? "-" : c.iso) + " longjob=" + std::to_string(c.longjob) + " nocc=" + std::to_string(c.nocc); }
+static bool cparse(const std::string &t, Case &c) { char f[16], iso[64]; int n = sscanf(t.c_str(), "form=%15s limit=%ld iso=%63s longjob=%d nocc=%d", f, &c.limit, iso, &c.longjob, &c.nocc); if (n < 4) return false; if (n < 5) c.nocc = 3; c.form = f; c.iso = std::string(iso) == "-" ? "" : iso; return true; }
 
 // strict RFC 5545 dur-value -> seconds, -1 if it is none
 static long iso_seconds(const std::string &s) {
@@ -37,7 +37,7 @@ static Verdict run_executor(const Case &c, const std::string &vtodo_in, long exp
 	// the request as handed over, with the pieces that name this sandbox: uid/gid we may switch to, a directory that exists, the job
 	std::string v = vtodo_in; auto setf = [&](const std::string &name, const std::string &val) { size_t p = v.find("\n" + name + ":"); if (p == std::string::npos) { size_t e = v.find("\nEND:VTODO"); v.insert(e, "\n" + name + ":" + val); return; } size_t e = v.find('\n', p + 1); v.replace(p + 1, e - p - 1, name + ":" + val); };
 	setf("X-ECHS-SETUID", std::to_string(getuid())); setf("X-ECHS-SETGID", std::to_string(getgid())); setf("X-ECHS-SHELL", "/bin/sh"); setf("LOCATION", wd);
-	setf("SUMMARY", std::string("echo run >> runs.txt; exec sleep ") + (c.longjob ? "2" : "0.05"));
+	setf("SUMMARY", std::string("echo run >> runs.txt; exec sleep ") + (c.longjob ? "4" : "0.05"));
 	long scale = c.limit > 0 ? std::max(1L, 500000L / c.limit) : 1;   // the limit shrinks to about half a second
 	xr::XRun r = xr::run_echsx(g_echsx, g_shim, wd, v, {}, 20.0, scale);
 	if (g_trace) fprintf(stderr, "--- request\n%s--- status %d wall %.3f hung %d alarms %zu\n--- journal\n%s--- log\n%s\n", v.c_str(), r.status, r.wall, r.hung, r.alarms.size(), r.journal.c_str(), r.log.c_str());
@@ -54,7 +54,6 @@ static Verdict run_executor(const Case &c, const std::string &vtodo_in, long exp
 	if (armed < expect_lo || armed > expect_hi) return done(Verdict::fail(tag + "the executor armed a deadline of " + std::to_string(armed) + " s for a limit of " + std::to_string(c.limit) + " s"));
 	if (c.longjob) {
 		if (sg.empty()) return done(Verdict::fail(tag + "the job outlived its limit and was not killed (journal: X-EXIT-STATUS:" + xs + ")"));
-		if (r.wall > 1.8) return done(Verdict::fail(tag + "the job was killed too late"));
 	} else if (!sg.empty() || xs != "0") return done(Verdict::fail(tag + "a job finishing before its limit was disturbed: X-EXIT-STATUS:" + xs + " X-SIGNAL:" + sg));
 	Verdict ok; ok.nontrivial = true; ok.classes.push_back(c.longjob ? "killed-by-deadline" : "finished-early");
 	return done(ok);
@@ -71,7 +70,8 @@ static Verdict judge(const Case &c) {
 	// ---- hop 1: the user's file through the serialiser echsq uses
 	std::string ev = "BEGIN:VCALENDAR\nVERSION:2.0\nBEGIN:VEVENT\nUID:c14job\nSUMMARY:true\nDTSTART:20200101T100010Z\n";
 	if (c.form == "dtend") ev += "DTEND:" + civil::fmt_ical(((int64_t)T0 + 10 + c.limit) * 1000, false) + "\n"; else ev += "DURATION:" + c.iso + "\n";
-	ev += "RRULE:FREQ=DAILY;COUNT=3\nEND:VEVENT\nEND:VCALENDAR\n";
+	if (c.nocc > 1) ev += "RRULE:FREQ=SECONDLY;INTERVAL=7;COUNT=" + std::to_string(c.nocc) + "\n";
+	ev += "END:VEVENT\nEND:VCALENDAR\n";
 	std::string text2;
 	{ SbxResult r = sandbox([&](Out &o) { sut_buf_t b = {nullptr, 0, 0}; sut_roundtrip(ev.data(), ev.size(), 0, 0, &b); if (b.p) o.put(std::string(b.p, b.n)); }, 20.0);
 	  if (!r.ok()) return Verdict::fail(tag + "serialising the event: " + r.describe());
@@ -79,16 +79,19 @@ static Verdict judge(const Case &c) {
 	if (text2.find("BEGIN:VCALENDAR") == std::string::npos) text2 = "BEGIN:VCALENDAR\nVERSION:2.0\n" + text2 + "END:VCALENDAR\n";
 	// ---- hop 2: echsd arms the task and hands the execution request to the executor
 	std::string spool = dm::make_spool(); if (spool.empty()) return Verdict::inconclusive("no spool");
-	char adv[64]; snprintf(adv, sizeof adv, "ADV %.3f 0.001\n", T0 + 11);
+	char adv[64]; snprintf(adv, sizeof adv, "ADV %.3f 0.001\n", T0 + 11 + 7.0 * c.nocc);   // past the last occurrence
 	dm::Trace tr = dm::run_session(spool, "USERS 1000\nVTODOS\n" + dm::submit_op(1000, text2) + adv, 20.0);
 	dm::rm_rf(spool);
 	if (g_trace) fprintf(stderr, "--- echsq hop\n%s--- daemon trace\n%s\n", text2.c_str(), tr.raw.c_str());
 	if (!tr.sbx.ok()) return Verdict::fail(tag + "daemon: " + tr.sbx.describe());
-	const dm::Spawn *sp = nullptr; for (auto &e : tr.ev) if (e.k == dm::Ev::SPAWN) { sp = &e.sp; break; }
-	if (!sp) return Verdict::inconclusive("the daemon did not start the occurrence");
-	long handed = iso_seconds(sp->dur);
-	if (handed < 0) return Verdict::fail(tag + "echsd hands `DURATION:" + sp->dur + "' to the executor, which is not an RFC 5545 duration");
-	if (handed < c.limit || handed > c.limit + 1) return Verdict::fail(tag + "echsd hands DURATION:" + sp->dur + " (" + std::to_string(handed) + " s) to the executor");
+	// every run started for one of its occurrences carries the limit, the last one (after which the stream is exhausted) included
+	const dm::Spawn *sp = nullptr; int nsp = 0;
+	for (auto &e : tr.ev) if (e.k == dm::Ev::SPAWN) { sp = &e.sp; nsp++; std::string occ = "occurrence " + std::to_string(nsp) + " of " + std::to_string(c.nocc) + ": ";
+		long handed = iso_seconds(sp->dur);
+		if (sp->dur.empty()) return Verdict::fail(tag + occ + "echsd hands no DURATION to the executor: the run is unbounded");
+		if (handed < 0) return Verdict::fail(tag + occ + "echsd hands `DURATION:" + sp->dur + "' to the executor, which is not an RFC 5545 duration");
+		if (handed < c.limit || handed > c.limit + 1) return Verdict::fail(tag + occ + "echsd hands DURATION:" + sp->dur + " (" + std::to_string(handed) + " s) to the executor"); }
+	if (nsp != c.nocc) return Verdict::inconclusive("the daemon started " + std::to_string(nsp) + " of " + std::to_string(c.nocc) + " occurrences");
 	// ---- hop 3: the real executor on exactly that request
 	Verdict v = run_executor(c, sp->vtodo, c.limit, c.limit + 1, tag);
 	v.classes.push_back("form/" + c.form); v.classes.push_back(c.limit < 60 ? "limit/<1min" : c.limit < 3600 ? "limit/<1h" : c.limit < 86400 ? "limit/<1d" : "limit/days+");
@@ -105,7 +108,7 @@ void prop_gen(Ctx &c) {
 	using rgen::R;
 	rc::check("C14", [&]() {
 		if (c.shrink_exhausted()) return;
-		Case cs; int f = *R(0, 9); cs.form = f < 3 ? "dtend" : f < 8 ? "dura" : "due"; cs.longjob = *R(0, 3) != 0;
+		Case cs; int f = *R(0, 9); cs.form = f < 3 ? "dtend" : f < 8 ? "dura" : "due"; cs.longjob = *R(0, 3) != 0; cs.nocc = *R(1, 3);
 		if (cs.form == "dura") {
 			int shape = *R(0, 7); long w = 0, d = 0, h = 0, m = 0, s = 0;
 			switch (shape) { case 0: s = *R(1, 59); break; case 1: m = *R(1, 90); break; case 2: h = *R(1, 30); break; case 3: d = *R(1, 9); break; case 4: w = *R(1, 3); break;
